@@ -912,7 +912,20 @@ def subscript(I, obj, idx, node):
                 I.st.assume(z3.And(c >= 0, c <= MAXCODE))
                 I.st.assume(z3.SubString(z, z3.Length(z) - k, 1) == z3.StrFromCode(c))
                 return SStr([Ch(c)])
-            obj = I.force_known_len(obj, node)
+            if isinstance(idx, (int, bool)):
+                obj = I.force_known_len(obj, node)
+        if str_known_len(obj) is None:
+            # symbolic index into a string of unknown length: IndexError outside [-len, len)
+            z = str_z3(obj)
+            L = z3.Length(z)
+            zi = to_zint(idx)
+            if not I.branch(z3.And(zi >= -L, zi < L)):
+                raise PyRaise(IndexError)
+            pos = zi if I.st.implied(zi >= 0) else z3.If(zi >= 0, zi, zi + L)
+            c = I.st.fresh_int('c')
+            I.st.assume(z3.And(c >= 0, c <= MAXCODE))
+            I.st.assume(z3.SubString(z, pos, 1) == z3.StrFromCode(c), lazy=True)
+            return SStr([Ch(c)])
         chars = [c if isinstance(c, str) else SStr([c]) for c in str_chars(obj)]
         if isinstance(idx, (int, bool)):
             return str_index(I.st, obj, idx)
